@@ -1,6 +1,7 @@
 import Gallia.Lib.Proto
 import Gallia.Model.VEcuHist
-open Gallia Gallia.Proto Gallia.Server Gallia.VEcu
+import Gallia.Model.VEcuConn
+open Gallia Gallia.Proto Gallia.Server Gallia.VEcu Gallia.VEcuConn
 
 /-
   line protocol
@@ -24,11 +25,19 @@ open Gallia Gallia.Proto Gallia.Server Gallia.VEcu
         the same with `last_time_active` and the two clock reads of handle_request (`VEcu.vecuHandleSE`, every default
         behaviour on), all in ticks of 0.25 s
     ->  as for sreq, with ` la=<last_time_active> len=<reply length|-> ` in front of `ready=`
+    copen <t0> [limit]                           a new connection (`VEcuConn.Sys.opened`), transport created at tick t0, reader limit
+                                                 (default 65536) -> `ok`
+    cline <linehex> <start> <stop> <oracle x6>   the server's loop gets the complete line <line> + "\n" (raw bytes)
+    ->  `alive=<0|1> end=<-|eof|badline|line-too-long|assertion|index> served=<n> st=<session> <level> <seed> la=<n> written=<hex|->`
+    cxchg <pduhex> <start> <stop> <oracle x6>    `client.request(pdu)` over the connection (`VEcuConn.exchange`)
+    ->  as cline, then ` client=<accepted|mismatch|malformed|timeout|closed|badline> rbuf=<hex|-> sbuf=<hex|->`
+    ceof                                         the peer closes -> `alive=0 end=<...> served=<n> epilogue=<ok|zerodiv>`
 -/
 
 structure St where
   assoc : Assoc := []
   model : Model := ⟨[], fun _ => none⟩
+  sys : Sys := Sys.opened 0
 
 def parseEntry (s : String) : Option (Sid × Option (List SubFn)) :=
   match s.splitOn "=" with
@@ -137,8 +146,52 @@ def doCReq (s : St) (st : SrvState) (la start stop : Nat) (pdu : Bytes) (o : Orc
   | (ts', .crash c) =>
     s!"crash {match c with | .assertion => "assertion" | .index => "index"} {showState ts'.st} client=- wf=- la={ts'.lastActive} len=- ready={ready}"
 
+def showEnd : Option EndCause → String
+  | none => "-"
+  | some .eof => "eof"
+  | some .badLine => "badline"
+  | some .tooLong => "line-too-long"
+  | some (.raised .assertion) => "assertion"
+  | some (.raised .index) => "index"
+
+def showConn (c : Conn) (w : Bytes) : String :=
+  s!"alive={bit c.alive} end={showEnd c.ended} served={c.served} st={showState c.ts.st} la={c.ts.lastActive} written={hexOrDash w}"
+
+def showCRes : CRes → String
+  | .accepted _ => "accepted"
+  | .mismatch => "mismatch"
+  | .malformed => "malformed"
+  | .timeout => "timeout"
+  | .closed => "closed"
+  | .badLine => "badline"
+
 def step (s : St) (line : String) : St × String :=
   match words line with
+  | ["copen", t0] => match t0.toNat? with
+    | some t => ({ s with sys := Sys.opened t }, "ok")
+    | none => (s, "bad-op")
+  | ["copen", t0, lim] => match t0.toNat?, lim.toNat? with
+    | some t, some l => ({ s with sys := Sys.opened t l }, "ok")
+    | _, _ => (s, "bad-op")
+  | ["cline", hx, start, stop, bools, byte, paylen, payhex, dtccount, dtcs] =>
+    match parseHex hx, start.toNat?, stop.toNat?, parseOrc bools byte paylen payhex dtccount dtcs with
+    | some l, some t0, some t1, some o =>
+      let (c', w) := serveLine s.model s.sys.conn l t0 t1 o
+      ({ s with sys := { s.sys with conn := c', rbuf := s.sys.rbuf ++ w } }, showConn c' w)
+    | _, _, _, _ => (s, "bad-op")
+  | ["cxchg", hx, start, stop, bools, byte, paylen, payhex, dtccount, dtcs] =>
+    match parseHex hx, start.toNat?, stop.toNat?, parseOrc bools byte paylen payhex dtccount dtcs with
+    | some pdu, some t0, some t1, some o =>
+      let q : CItem := ⟨t0, t1, pdu, o⟩
+      let w := (serverPump s.model s.sys.conn (s.sys.sbuf ++ Lines.enc pdu) t0 t1 o).2.1
+      let (sys', r) := exchange s.model s.sys q
+      ({ s with sys := sys' },
+       s!"{showConn sys'.conn w} client={showCRes r} rbuf={hexOrDash sys'.rbuf} sbuf={hexOrDash sys'.sbuf}")
+    | _, _, _, _ => (s, "bad-op")
+  | ["ceof"] =>
+    let c' := serveEof s.sys.conn
+    ({ s with sys := { s.sys with conn := c' } },
+     s!"alive={bit c'.alive} end={showEnd c'.ended} served={c'.served} epilogue={if c'.epilogueRaises then "zerodiv" else "ok"}")
   | ["model", spec] => match parseModel spec with
     | some a =>
       ({ assoc := a, model := Model.ofAssoc a },
